@@ -69,7 +69,10 @@ namespace options
         void usage(std::ostream& s) const;
 
     private:
-        const parser& parser_;
+        // the owning parser; re-pointed by the parser when it is moved
+        const parser* parser_;
+
+        friend class options::parser;
         std::string name_;
         std::string description_;
 
